@@ -62,6 +62,9 @@ Proof. vm_compute. reflexivity. Qed.
 Lemma census_holders : holders_hold_only_the_cache ConcStateGen.shared_fields = true.
 Proof. vm_compute. reflexivity. Qed.
 
+Lemma census_lk_writes_to_fresh : lk_writes_to_fresh ConcStateGen.lk_field_writes = true.
+Proof. vm_compute. reflexivity. Qed.
+
 Lemma census_holds : census_ok = true.
 Proof. vm_compute. reflexivity. Qed.
 
@@ -83,7 +86,8 @@ Lemma census_rejects_regressions :
   lf_writes_nothing ConcStateGen.lockfree_fns (memo_alias_write :: ConcStateGen.state_writes) = false /\
   vars_only_initialised (pkg_cache_write :: ConcStateGen.state_writes) = false /\
   holders_hold_only_the_cache (("j5reflect.Reflector.rootProps"%string, "map[string]*j5reflect.propSet"%string, true) :: ConcStateGen.shared_fields) = false /\
-  forallb shared_type_ok ("j5reflect.propSet"%string :: ConcStateGen.shared_types) = false.
+  forallb shared_type_ok ("j5reflect.propSet"%string :: ConcStateGen.shared_types) = false /\
+  lk_writes_to_fresh (republish_write :: ConcStateGen.lk_field_writes) = false.
 Proof. repeat split; vm_compute; reflexivity. Qed.
 
 (* ---- the unguarded discipline violates the property ------------------------ *)
